@@ -242,6 +242,20 @@ func report(p *Program, prop, tier string, seed int, reps []*FuncReport, evidenc
 	bounded, _ := runBounded(repo, prop, tier, seed)
 	for i := range bounded {
 		b := &bounded[i]
+		// deviations the stand-in itself classifies into a recorded class: each class must be listed in the known-findings file
+		for _, f := range b.Findings {
+			fname := "bounded:" + b.Name + ":" + f.ID
+			if kfnd, ok := known[fname]; ok {
+				knownLines = append(knownLines, fmt.Sprintf("KNOWN-FINDING: property=%s %s %s", prop, fname, kfnd.What))
+				continue
+			}
+			violations++
+			path := filepath.Join(rdir, safeFile(fname)+".json")
+			writeJSON(path, map[string]interface{}{"obligation": fname, "kind": "bounded", "package": b.Package, "test": b.Test, "cases": f.Cases, "failing_input": f.Example,
+				"replay_cmd": fmt.Sprintf("cd %s && go test -tags verif -vet=off -count=1 -v -run '^%s$' ./%s", repo, b.Test, b.Package)})
+			violLines = append(violLines, fmt.Sprintf("VIOLATION property=%s replay=%s", prop, path))
+			fmt.Fprintf(os.Stderr, "  FAILED bounded check %s: unlisted finding %s (%d cases), e.g. %s\n", b.Name, f.ID, f.Cases, f.Example)
+		}
 		if b.Passed {
 			continue
 		}
